@@ -726,7 +726,9 @@ Proof.
   { rewrite (ji_ids _ _ _ Jv). unfold chunk_ids. apply in_or_app. right. apply in_or_app. left. exact Hcl. }
   destruct (HPL i ld p Hl Hp Hin) as (Hwf & pre & post & Ef & Eoff & Elen).
   destruct (closed_get_in _ _ Hcl) as (c & Hc & Eid).
-  unfold load_payload. rewrite Hc. unfold read_record. rewrite Eid, Hf.
+  unfold load_payload. rewrite Hc. unfold read_record. rewrite Eid.
+  destruct (N.ltb_spec (ld_off ld) (ld_chunk ld)) as [Hu|_]; [unfold blen in Eoff; lia|].
+  rewrite Hf.
   destruct (C11_disk_is_prefix y _ f (jw_sorted _ JW) Hf Hin) as [tl Etl].
   set (e := enc_record (RAppend (ld_id ld) p)) in *.
   assert (Erel : ld_off ld - ld_chunk ld = blen pre) by lia.
